@@ -152,6 +152,8 @@ CHECKS = {
             "loop class (about 1 case in 50): the real replica state machine (Start, 50 ms ticks, error state, backoff with RetryBaseDelay 1 ms / RetryMaxDelay 2 ms, reconnect) against an in-process primary that answers every StreamWAL request from the requested sequence with the real Primary's entries in messages of generated sizes; the history is written before the replica connects",
             "the applier's transient failures are keyed by sequence number (a refused apply has no effect)",
             "loop class: not converging within 20 s is counted, not judged",
+            "loop class, slow apply (one case per process in quick, two in thorough): the first Apply of a generated entry stalls 5.5-8 s and is then carried out (never refused, later attempts are prompt); the case ends only after every stalled call has returned plus 300 ms; the stall is a fault magnitude, not a verdict",
+            "after a violation has been recorded in a process, shrink candidates of the loop class are executed only up to a cap (verdicts reused by case hash)",
         ],
     },
     "C14": {
